@@ -23,6 +23,12 @@ import gen  # noqa: E402
 import lib  # noqa: E402
 
 RTOL = 1e-9
+
+
+def rtol_of(q):
+    """1e-9 up to q = 4; the conditioning of the (preconditioned) q-times integrated Wiener process grows by about an
+    order of magnitude per derivative: 1e-7 for q = 5, 6"""
+    return RTOL if q <= 4 else 1e-7
 STRATS = ("filter", "fixedinterval", "fixedpoint")
 CALIBS = ("none", "mle", "dyn")
 
@@ -299,10 +305,10 @@ def ts0_three(ck, n):
             (md, Pd, sd_), (mi, Pi, si), (mb, Pb, sb) = arrs(rd), arrs(ri), arrs(rb)
             sd = sd_of(Pd)
             # dense vs isotropic: everything, every mode
-            p = cmp_mean(md, mi, sd, label="ts0 dense-iso mean")
+            p = cmp_mean(md, mi, sd, rtol=rtol_of(c["q"]), label="ts0 dense-iso mean")
             if p:
                 ck.report(f"C14.dense-iso.{cal}.mean", f"{describe(cc)}: {p}", rep)
-            p = cmp_cov(Pd, Pi, sd, label="ts0 dense-iso cov")
+            p = cmp_cov(Pd, Pi, sd, rtol=rtol_of(c["q"]), label="ts0 dense-iso cov")
             if p:
                 ck.report(f"C14.dense-iso.{cal}.cov", f"{describe(cc)}: {p}", rep)
             if sd_.shape != si.shape or not np.all(np.abs(sd_ - si) <= 1e-8 * np.abs(sd_) + sfloor(sd_, si)):
@@ -311,11 +317,11 @@ def ts0_three(ck, n):
                 ck.report(f"C14.dense-iso.{cal}.num_steps", f"{describe(cc)}: {rd['num_steps']} vs {ri['num_steps']}", rep)
             # dense vs block-diagonal: means in none + mle, covariances in none, scale split in mle
             if cal in ("none", "mle"):
-                p = cmp_mean(md, mb, sd, label="ts0 dense-blockdiag mean")
+                p = cmp_mean(md, mb, sd, rtol=rtol_of(c["q"]), label="ts0 dense-blockdiag mean")
                 if p:
                     ck.report(f"C14.dense-blockdiag.{cal}.mean", f"{describe(cc)}: {p}", rep)
             if cal == "none":
-                p = cmp_cov(Pd, Pb, sd, label="ts0 dense-blockdiag cov")
+                p = cmp_cov(Pd, Pb, sd, rtol=rtol_of(c["q"]), label="ts0 dense-blockdiag cov")
                 if p:
                     ck.report(f"C14.dense-blockdiag.{cal}.cov", f"{describe(cc)}: {p}", rep)
             if cal == "mle":
@@ -374,10 +380,10 @@ def ts1_decoupled(ck, n):
         for a in range(d):
             ms, Ps, ss = arrs(rs[1 + a])
             sd = sd_of(Ps)
-            p = cmp_mean(ms, mb[:, a::d], sd, label="ts1 blockdiag-scalar mean")
+            p = cmp_mean(ms, mb[:, a::d], sd, rtol=rtol_of(c["q"]), label="ts1 blockdiag-scalar mean")
             if p:
                 ck.report(f"C14.blockdiag-scalar.{mode}.mean", f"{describe(c)} dimension {a}: scalar dense vs block: {p}", rep)
-            p = cmp_cov(Ps, Pb[:, a::d, a::d], sd, label="ts1 blockdiag-scalar cov")
+            p = cmp_cov(Ps, Pb[:, a::d, a::d], sd, rtol=rtol_of(c["q"]), label="ts1 blockdiag-scalar cov")
             if p:
                 ck.report(f"C14.blockdiag-scalar.{mode}.cov", f"{describe(c)} dimension {a}: scalar dense vs block: {p}", rep)
             if not np.all(np.abs(ss[:, 0] - sb[:, a]) <= 1e-8 * np.abs(ss[:, 0]) + sfloor(sb, ss)):
@@ -412,10 +418,10 @@ def ts1_scalar_jacobian(ck, n):
             continue
         (md, Pd, sd_), (mi, Pi, si) = arrs(rd), arrs(ri)
         sd = sd_of(Pd)
-        p = cmp_mean(md, mi, sd, label="ts1 dense-iso mean")
+        p = cmp_mean(md, mi, sd, rtol=rtol_of(c["q"]), label="ts1 dense-iso mean")
         if p:
             ck.report(f"C14.dense-iso.{mode}.mean", f"{describe(c)} [{c['jac']}]: {p}", rep)
-        p = cmp_cov(Pd, Pi, sd, label="ts1 dense-iso cov")
+        p = cmp_cov(Pd, Pi, sd, rtol=rtol_of(c["q"]), label="ts1 dense-iso cov")
         if p:
             ck.report(f"C14.dense-iso.{mode}.cov", f"{describe(c)} [{c['jac']}]: {p}", rep)
         if sd_.shape != si.shape or not np.all(np.abs(sd_ - si) <= 1e-8 * np.abs(sd_) + sfloor(sd_, si)):
@@ -437,9 +443,12 @@ def adaptive_pair(ck, n):
             if c["strat"] == "fixedinterval":
                 c["strat"] = "fixedpoint"
         bound_field(c, 1)
-        if ck.rng.random() < 0.5:
-            c["init_mode"] = "exact"
-            c["std"] = [Fr(0)] * (c["q"] + 1)
+        # adaptive runs are compared on well-conditioned initial conditions only (exact, or a small uniform std): with
+        # O(1) prior std on some coefficients ("mixed"/"diffuse") the posterior variances are differences of numbers 1e7
+        # apart and two equivalent floating-point programs agree to a few per cent only (those modes stay in (1)-(3))
+        if c["init_mode"] in ("mixed", "diffuse") or ck.rng.random() < 0.3:
+            c["init_mode"] = ck.rng.choice(["exact", "exact", "inexact"])
+            c["std"] = [Fr(0) if c["init_mode"] == "exact" else Fr(1, 1024)] * (c["q"] + 1)
         c["base"] = None
         c["damp"] = Fr(0)
         c["routine"] = "adaptive"
@@ -493,7 +502,7 @@ def adaptive_pair(ck, n):
         # proportional to the residual u' - f(u) (cancellation: with a non-zero initial covariance the controller first
         # shrinks the step to ~1e-5, where the residual is 1e-7 of its operands).  Exact initial conditions avoid that
         # regime: 1e-7; otherwise 1e-4; both plus 50 x the twin's deviation.
-        base = 1e-7 if c["init_mode"] == "exact" else 1e-4
+        base = 1e-7 if c["init_mode"] == "exact" else 1e-4   # inexact: std 1/1024 on every coefficient
         p = cmp_mean(md, mi, sd, rtol=base, label=f"adaptive dense-iso mean, init {'exact' if base < 1e-5 else 'inexact'} (beyond 50x twin noise)", extra=K * nm[None, :])
         if p:
             ck.report(f"C14.dense-iso.{mode}.mean", f"{describe(c)}: {p} [twin noise {nm.max():.2e}]", rep)
@@ -508,8 +517,8 @@ def main():
     ck = lib.Check("C14")
     pr = ck.run_proof()
     quick = ck.tier == "quick"
-    phases = [ts0_three(ck, 12 if quick else 150), ts1_decoupled(ck, 12 if quick else 150),
-              ts1_scalar_jacobian(ck, 12 if quick else 150), adaptive_pair(ck, 12 if quick else 100)]
+    phases = [ts0_three(ck, 18 if quick else 150), ts1_decoupled(ck, 18 if quick else 150),
+              ts1_scalar_jacobian(ck, 18 if quick else 150), adaptive_pair(ck, 16 if quick else 100)]
     batches = [next(ph) for ph in phases]            # every phase first yields its runs ...
     res = run(ck, [r for b in batches for r in b])    # ... all runs are dispatched together ...
     k = 0
@@ -523,7 +532,7 @@ def main():
     if not pr["ok"] and not ck.violations:
         ck.report("C14.proof", f"proof obligations no longer check: {pr['errors']}",
                   {"broken": pr.get("failed_at", "Props/C14.v"), "errors": pr["errors"]}, nofail=True)
-    ck.finish(rule="implementation vs implementation in the dense layout (index i*d+a), float64, tolerance 1e-9 relative to |mean|+sd resp. sd_i*sd_j: "
+    ck.finish(rule="implementation vs implementation in the dense layout (index i*d+a), float64, tolerance 1e-9 (q <= 4; 1e-7 for q = 5, 6) relative to |mean|+sd resp. sd_i*sd_j: "
               "(1) TS0, default scales, shared initial std: dense/isotropic/block-diagonal on the same random polynomial ODE and fixed grid, "
               "strategies filter/fixed-interval/fixed-point, calibration none/mle/dynamic: dense=isotropic in everything (means, covariances, "
               "output scales) in every mode; dense=block-diagonal means (none, mle), covariances (none), dense_scale^2 = mean_a blockdiag_scale_a^2 (mle); "
